@@ -239,6 +239,15 @@ impl ForeignSpec {
                     m.summary.arch = if a.is_empty() { None } else { Some(SStr::Exact(a.to_string())) };
                     m.summary.langs = l.split(',').filter_map(|c| c.parse().ok()).collect();
                 }
+                (id, p) if ![1u32, 2, 3, 4, 6, 7, 9, 12, 15, 18].contains(id) => {
+                    m.summary.extra.push((
+                        *id,
+                        match p {
+                            FProp::Str(x) => ExtraVal::Str(x.clone()),
+                            other => ExtraVal::Other(format!("{:?}", other)),
+                        },
+                    ));
+                }
                 _ => {}
             }
         }
